@@ -490,8 +490,8 @@ class ValueWrapper(Term):
             sql = self.get_value_sql(quote_char=quote_char, secondary_quote_char=secondary_quote_char, **kwargs)
             return format_alias_sql(sql, self.alias, quote_char=quote_char, **kwargs)
 
-        # Don't stringify numbers when using a parameter
-        if isinstance(self.value, (int, float)):
+        # Don't stringify numbers and None when using a parameter
+        if self.value is None or isinstance(self.value, (int, float)):
             value_sql = self.value
         else:
             value_sql = self.get_value_sql(quote_char=quote_char, **kwargs)
